@@ -24,6 +24,8 @@ FN_CMP = ("lt", ("add", R("a"), L(1)), R("b"))  # comparison whose first argumen
 
 ATOMS = [
     FN_CMP,
+    ("in_seq", ("add", R("a"), L(1)), (R("b"), L(2))),
+    ("in_range", R("a"), (2, -1, -1)),
     ("plit", True),
     ("plit", False),
     ("pref", "p"),
@@ -71,7 +73,7 @@ def predicates(tier):
     # depth 3: NOT over all depth-2 trees; binary connectives of a depth-2 tree with an atom / depth-1 tree
     d3 = [("not", x) for x in d2]
     partners = ATOMS if tier == "quick" else ATOMS + d1s[:40]
-    step = 7 if tier == "quick" else 1
+    step = 21 if tier == "quick" else 2
     d2sel = d2[::step]
     for k in ("and", "or"):
         for x in d2sel:
